@@ -58,14 +58,56 @@ def _product(vals, n):
     return itertools.product(vals, repeat=n)
 
 
-def random_plain_input(rng, no, ns):
+def random_plain_input(rng, no, ns, variants=True):
     ol = [f"g{i}" for i in range(no)]
     sl = [SP_NAMES[i] for i in range(ns)]
     d = {"ot": random_plane_tree(rng, ol), "st": random_plane_tree(rng, sl),
          "leafmap": {g: rng.choice(sl) for g in ol}}
+    return presentation_variants(d, rng) if variants else d
+
+
+def presentation_variants(d, rng):
+    """Presentation choices that must not matter, applied LAST (after every structural edit of the descriptor)."""
     if rng.random() < 0.25:
         d["brlen"] = rng.randrange(1, 1000)     # a quarter of the seeded inputs carry branch lengths in both Newick strings
+    r = rng.random()
+    if r < 0.1 and len(_leafnames(d["st"])) >= 2:
+        d = alias_leaves(d, rng)
+    elif r < 0.2 and len(_leafnames(d["st"])) >= 2:
+        d = case_species(d, rng)
     return d
+
+
+def _rename(t, mp):
+    return mp.get(t, t) if isinstance(t, str) else tuple(_rename(c, mp) for c in t)
+
+
+def alias_leaves(d, rng):
+    """Object leaves named `<species>_<k>` after a species OTHER than the one the explicit leaf assignment gives them
+    (the explicit assignment is what counts; names are only a fallback when no assignment is given)."""
+    species = sorted(set(d["leafmap"].values()) | set(_leafnames(d["st"])))
+    mp = {}
+    for k, l in enumerate(sorted(d["leafmap"])):
+        others = [s for s in species if s != d["leafmap"][l]] or species
+        mp[l] = f"{rng.choice(others)}_{k}"
+    out = dict(d, ot=_rename(H.totuple(d["ot"]), mp), leafmap={mp[l]: s for l, s in d["leafmap"].items()})
+    if d.get("leafsyn"):
+        out["leafsyn"] = {mp.get(l, l): v for l, v in d["leafsyn"].items()}
+    return out
+
+
+def case_species(d, rng):
+    """Two species whose names differ only by letter case (k12 / K12): names are case-sensitive identifiers."""
+    sl = _leafnames(d["st"])
+    if len(sl) < 2:
+        return d
+    x, y = rng.sample(sl, 2)
+    mp = {y: x.lower() if x.lower() != x else x.upper()}
+    return dict(d, st=_rename(H.totuple(d["st"]), mp), leafmap={l: mp.get(s, s) for l, s in d["leafmap"].items()})
+
+
+def _leafnames(t):
+    return [t] if isinstance(t, str) else [l for c in t for l in _leafnames(c)]
 
 
 def caterpillar(leaves, left=True):
@@ -77,7 +119,7 @@ def caterpillar(leaves, left=True):
 
 def random_deep_input(rng, no, ns, cat_p=0.7):
     """Plain input whose species tree is (with probability cat_p) a caterpillar: the deepest shape for its size."""
-    d = random_plain_input(rng, no, ns)
+    d = random_plain_input(rng, no, ns, variants=False)
     r = rng.random()
     sl = [SP_NAMES[i] for i in range(ns)]
     if r < cat_p * 0.6 or ns < 4:
@@ -87,7 +129,7 @@ def random_deep_input(rng, no, ns, cat_p=0.7):
         d["st"] = (caterpillar(sl[:k], rng.random() < 0.5), caterpillar(sl[k:], rng.random() < 0.5))
     if rng.random() < 0.3:
         d["ot"] = caterpillar([f"g{i}" for i in range(no)], rng.random() < 0.5)
-    return d
+    return presentation_variants(d, rng)
 
 
 def simulated_input(rng, no_max, ns, nf=0, ordered=False, p_dup=0.25, p_hgt=0.2, p_loss=0.12, p_seg=0.3, p_gain=0.25, st=None):
